@@ -124,6 +124,8 @@ class CompactFilter:
         self.key = key
         # N counts every element of the filter, duplicates included (BIP158)
         self.f = len(hashes) * GOLOMB_M
+        # every encoded value, duplicates included, so that serialize() inverts parse()
+        self.items = sorted(hashes)
         self.hashes = set(hashes)
 
     def __repr__(self):
@@ -145,7 +147,7 @@ class CompactFilter:
         return hash256(self.serialize())
 
     def serialize(self):
-        return serialize_gcs(sorted(list(self.hashes)))
+        return serialize_gcs(self.items)
 
     def compute_hash(self, raw_script_pubkey):
         return hash_to_range(self.key, raw_script_pubkey, self.f)
